@@ -461,7 +461,19 @@ func runInBubble(s Script) (res vt.Result) {
 			continue
 		}
 		if mixed {
-			continue // not a purely legacy session any more; only the checks above apply
+			// Not a purely legacy session any more. What still holds: a session whose handshake was complete
+			// stays initialized whatever 2026-07-28 requests it has served since, so a repeated initialized
+			// notification and a second initialize are still refused.
+			if phase == "initialized" && m.Method == "notifications/initialized" && initdDelta != 0 {
+				res.Failf("msg %d: repeated initialized notification ran the InitializedHandler again (the handshake was complete before the session served a 2026-07-28 request)", i)
+			}
+			if phase == "initialized" && m.Method == "initialize" && strings.HasPrefix(m.Init, "ok:") && !isErr {
+				res.Failf("msg %d: second initialize was accepted (the handshake was complete before the session served a 2026-07-28 request)", i)
+			}
+			if phase == "initialized" && (m.Method == "notifications/initialized" || m.Method == "initialize") {
+				res.Class("handshake_message_repeated_after_a_modern_request")
+			}
+			continue // only the checks above apply
 		}
 		switch m.Method {
 		case "initialize":
